@@ -197,7 +197,7 @@ class _Guard(object):
     def __exit__(self, et, ev, tb):
         if et is None:
             return False
-        if issubclass(et, (HarnessError, KeyboardInterrupt, SystemExit, MemoryError)):
+        if issubclass(et, (HarnessError, StepBudgetExceeded, KeyboardInterrupt, SystemExit, MemoryError)):
             return False
         if self.expected and issubclass(et, self.expected):
             self.raised = ev
@@ -449,7 +449,11 @@ def finish(prop, tier, seed, info, outs, wall, is_replay):
         'wall_s': round(wall, 2),
         'violations': new_viol,
     }
-    if not is_replay:
+    if not is_replay and ev < 1:
+        # nothing was evaluated (e.g. every case failed before its oracle was reached): there is no evidence to
+        # write -- the schema rightly refuses a run that observed nothing -- and the run cannot be "held"
+        inconclusive.append('no oracle evaluation happened: no evidence file written')
+    elif not is_replay:
         os.makedirs(EVIDENCE_DIR, exist_ok=True)
         validate_evidence(evidence)
         with open(os.path.join(EVIDENCE_DIR, '%s.json' % prop), 'w') as f:
